@@ -34,6 +34,7 @@ WORK = os.path.join(lib.CACHE, 'c07')
 
 KF_UNION = 'C07-exhaustive-union'
 KF_STDOBJ = 'C07-std-rewrite-cached-in-policy'
+KF_TYPEOF = 'C07-typeof-in-policy'
 
 
 # ------------------------------------------------------------------ cases
@@ -75,6 +76,8 @@ def gen_cases(tier):
         pid = f'P{i}'
         if i == npl - 1:
             pl = G.gen_placement(rnd, pid, 'mixed', stdobj=True)
+        elif thorough and i == npl - 2:
+            pl = G.gen_placement(rnd, pid, 'typeof')
         else:
             pl = G.gen_placement(rnd, pid, pats[i % len(pats)])
         pls[pid] = pl
@@ -172,9 +175,21 @@ def classify_known(case, pl, out):
     comp = set(out.get('compound', []))
     if syntactic and culprits and comp and culprits <= comp:
         return KF_UNION
+    # C07-typeof-in-policy: a policy in force on type P has `typeof` in its expression and every
+    # blamed table is P's or a descendant's
+    tabs = set()
+    for t, ps in pl['pols'].items():
+        if any(re.search(r'\btypeof\b', x['text'], re.I) for x in ps):
+            tabs |= {G.TNUM[x] for x in [t] + G.descendants(t)}
+    if tabs and culprits and culprits <= tabs:
+        return KF_TYPEOF
     std_in_policy = re.search(r'\bstd::(Object|BaseObject)\b', pl['ddl'])
     if std_in_policy and re.search(r'\b(Object|BaseObject)\b', q):
-        return KF_STDOBJ
+        # the tainted rewrite of std::Object / std::BaseObject ranges over EVERY user table: all the
+        # placement's protected concrete tables are blamed, through an unfiltered cte / raw scans
+        prot = {t for t, _ in pl['spec'] if G.TYPES[t] not in G.ABSTRACT}
+        if culprits and prot <= culprits and not any('WHERE formula' in w for w in out.get('why', [])):
+            return KF_STDOBJ
     return None
 
 
